@@ -1057,6 +1057,9 @@ func runC13(c *Ctx) int {
 	// (b) CLI level
 	nSplits := c.Pick(300, 8000)
 	codecParallel(nSplits, workers, func(i int) {
+		if codecCLIHangConfirmed.Load() {
+			return // the commands hang (reported): every further case would only hang again
+		}
 		cc := codecCounts{}
 		rng := c.Rand(fmt.Sprintf("split/%d", i))
 		recs, err := c13Dataset(rng)
